@@ -81,3 +81,11 @@ claim("C05",
       "the exact second, the hemisphere/sign branches and rule-day arithmetic compare runtime quantities and are not decided by static analysis.",
       "Trusted: analysis/sym.py path enumeration over MIR.",
       "DESIGN.md 5/C05")
+claim("C16",
+      "interval abstract interpretation of the TZif / TZ-string readers and lookups with the input at full range; read-order, acceptance-box, must-pass-through and allocation-bound rules",
+      "Decides the 'survive everything' half for all inputs: from the parser and lookup entry points no slice, index, multiplication of header counts, 64-bit time "
+      "addition or rule arithmetic can trap (229 obligations, discharged or justified by name); allocations are sized by header counts already charged against the input; "
+      "and structural acceptance facts: blocks and header counts are read in TZif order, rule-day constructors accept exactly the documented ranges, every zone goes "
+      "through TimeZone::new -> validate, magic and version bytes. That each conforming file decodes to exactly what was written is not decided.",
+      "Trusted: analysis/abs*.py, specs/justifications.txt (about 20 tz_info sites), analysis/sym.py.",
+      "DESIGN.md 5/C16")
